@@ -34,6 +34,8 @@ def ev(v, asg):
         return v[1]
     if t == "tup":
         return tuple(v[1])
+    if t == "big":           # a LONG container (66+ elements) of values that are equal to, but not the same objects as, x.k1000
+        return tuple(n * 1000 + 7 for n in range(v[1], v[2]))
     if t == "sub1":          # attribute of THE one solution of a nested an(entity(y, y.ix == i)); the value was read off the world
         return v[4]
     o = asg[v[1]]
@@ -186,6 +188,8 @@ def bval(v, xs):
         return v[1]
     if t == "tup":
         return tuple(v[1])
+    if t == "big":
+        return tuple(n * 1000 + 7 for n in range(v[1], v[2]))
     if t == "sub1":
         from entity_query_language import an, entity, let
         pool = CUR_WORLD[v[1]]
@@ -365,7 +369,12 @@ def gen_leaf(rng, kinds, o):
         vi = rng.randrange(len(kinds))
         pp = _p_path(kinds[vi])
         kk = rng.random()
-        if kk < 0.55:
+        if kk < 0.12 and o.get("long_containers", True):
+            # membership in a long container whose elements are equal to the candidate without being the same objects
+            t_ = rng.randint(1, 4)
+            lo, hi = (t_, t_ + rng.randint(66, 80)) if rng.random() < 0.5 else (t_ - rng.randint(66, 80), t_)
+            item, cont = ["v", vi, pp + [["a", "k1000"]]], ["big", lo, hi]
+        elif kk < 0.55:
             item, cont = gen_num(rng, kinds, o), ["v", vi, pp + [["a", "t"]]]
         elif kk < 0.75:
             item, cont = gen_num(rng, kinds, o, allow_lit=False), ["tup", sorted(rng.sample([0, 1, 2, 3, 4], rng.randint(1, 3)))]
